@@ -364,6 +364,9 @@ func addSynonymDocs(rng *rand.Rand, b *Batch, prefix string) {
 				for pi := range sf.Pairs {
 					sf.Pairs[pi].Syns = nil
 				}
+				if rng.Intn(2) == 0 {
+					sf.Pairs = nil // an equivalence group analysed to nothing yields no pair at all
+				}
 			}
 			d.Syn = append(d.Syn, sf)
 		}
